@@ -217,8 +217,20 @@ def build_harness(name, flags=(), defines=(), sanitize=True, opt='-O1', libs=('-
             except OSError: pass
         return True, exe, ' '.join(cmd)
 
+DRIVER_SNAPSHOT = {}
 def driver_path(exe):
-    return os.path.join(LEAN, '.lake', 'build', 'bin', exe)
+    return DRIVER_SNAPSHOT.get(exe) or os.path.join(LEAN, '.lake', 'build', 'bin', exe)
+
+def snapshot_driver(exe):
+    """copy the freshly built driver aside (call while holding the lake lock): a concurrent check against another tree
+    (CELLO_REPO=…, tools/seed_eval.py) regenerates CelloGen and relinks the same lean_exe while this run is still using it"""
+    src = os.path.join(LEAN, '.lake', 'build', 'bin', exe)
+    d = os.path.join(CACHE, 'drv'); os.makedirs(d, exist_ok=True)
+    dst = os.path.join(d, f'{exe}.{os.getpid()}')
+    shutil.copy2(src, dst); DRIVER_SNAPSHOT[exe] = dst
+    import atexit
+    atexit.register(lambda: os.path.exists(dst) and os.unlink(dst))
+    return dst
 
 HENV = dict(os.environ, LC_ALL='C', ASAN_OPTIONS='detect_leaks=0:abort_on_error=0:exitcode=97:allocator_may_return_null=1',
             UBSAN_OPTIONS='print_stacktrace=1:halt_on_error=1:exitcode=98')
@@ -294,7 +306,8 @@ def write_evidence(prop, tier, seed, coverage, assumptions, wall, violations, le
     return p
 
 def write_replay(prop, name, header, body_lines):
-    p = os.path.join(REPLAYS, f'{prop}_{name}.ops')
+    tag = '' if os.path.realpath(REPO) == '/repo' else '_' + os.path.basename(os.path.realpath(REPO))
+    p = os.path.join(REPLAYS, f'{prop}_{name}{tag}.ops')
     with open(p, 'w') as f:
         for k, v in header.items():
             for ln in str(v).split('\n'): f.write(f'# {k}: {ln}\n')
